@@ -314,8 +314,16 @@ namespace Dune {
                                      FieldVector<K, 2>& eigenValues,
                                      FieldMatrix<K, 2, 2>& eigenVectors)
       {
+        /* Precondition the matrix by factoring out the maximum absolute
+        value of the components (as in the 3d case).  The closed form squares
+        the entries; this guards against floating-point overflow and underflow
+        of these squares and makes all thresholds relative to the size of the matrix.*/
+        using std::isnormal;
+        K maxAbsElement = (isnormal(matrix.infinity_norm())) ? matrix.infinity_norm() : K(1.0);
+        const FieldMatrix<K,2,2> scaledMatrix = matrix / maxAbsElement;
+
         // Compute eigen values
-        Impl::eigenValues2dImpl(matrix, eigenValues);
+        Impl::eigenValues2dImpl(scaledMatrix, eigenValues);
 
         // Compute eigenvectors by exploiting the Cayley–Hamilton theorem.
         // If λ_1, λ_2 are the eigenvalues, then (A - λ_1I )(A - λ_2I ) = (A - λ_2I )(A - λ_1I ) = 0,
@@ -328,27 +336,29 @@ namespace Dune {
 
           // Special casing for multiples of the identity (up to round-off relative to the size of the matrix)
           using real_type = typename FieldTraits<K>::real_type;
-          FieldMatrix<K,2,2> temp = matrix;
+          FieldMatrix<K,2,2> temp = scaledMatrix;
           temp[0][0] -= eigenValues[0];
           temp[1][1] -= eigenValues[0];
-          if(temp.infinity_norm() <= 64 * std::numeric_limits<real_type>::epsilon() * matrix.infinity_norm()) {
+          if(temp.infinity_norm() <= 64 * std::numeric_limits<real_type>::epsilon() * scaledMatrix.infinity_norm()) {
             eigenVectors[0] = {1.0, 0.0};
             eigenVectors[1] = {0.0, 1.0};
           }
           else {
             // The columns of A - λ_2I are eigenvectors for λ_1, or zero.
             // Take the column with the larger norm to avoid zero columns.
-            FieldVector<K,2> ev0 = {matrix[0][0]-eigenValues[1], matrix[1][0]};
-            FieldVector<K,2> ev1 = {matrix[0][1], matrix[1][1]-eigenValues[1]};
+            FieldVector<K,2> ev0 = {scaledMatrix[0][0]-eigenValues[1], scaledMatrix[1][0]};
+            FieldVector<K,2> ev1 = {scaledMatrix[0][1], scaledMatrix[1][1]-eigenValues[1]};
             eigenVectors[0] = (ev0.two_norm2() >= ev1.two_norm2()) ? ev0/ev0.two_norm() : ev1/ev1.two_norm();
 
             // The columns of A - λ_1I are eigenvectors for λ_2, or zero.
             // Take the column with the larger norm to avoid zero columns.
-            ev0 = {matrix[0][0]-eigenValues[0], matrix[1][0]};
-            ev1 = {matrix[0][1], matrix[1][1]-eigenValues[0]};
+            ev0 = {scaledMatrix[0][0]-eigenValues[0], scaledMatrix[1][0]};
+            ev1 = {scaledMatrix[0][1], scaledMatrix[1][1]-eigenValues[0]};
             eigenVectors[1] = (ev0.two_norm2() >= ev1.two_norm2()) ? ev0/ev0.two_norm() : ev1/ev1.two_norm();
           }
         }
+        //The preconditioning scaled the matrix, which scales the eigenvalues. Revert the scaling.
+        eigenValues *= maxAbsElement;
       }
 
       // 3d specialization
